@@ -282,11 +282,7 @@ def oracle(case, refres, sb):
         if rc["result"][0] == "harness" or sc["result"][0] == "harness":
             continue
         if rc["result"][0] == "nofn":
-            # not a function of the program (it stopped before defining it): call() must refuse, nothing to compare
-            if sc["result"][0] == "exc" and sc["result"][1] in ("SandboxHasNoVariable", "SandboxHasNoFunction"):
-                continue
-            return ({"kind": "call", "cause": "missing-function-not-refused"},
-                    "call(%r): the program defines no such function, call() answered %r" % (c["fn"], sc["result"]))
+            continue        # not one of the program's functions (it stopped before defining it): outside the property
         if exhausted(rc.get("events", [])):
             continue
         if sc["result"][0] == "escaped":
@@ -310,6 +306,8 @@ OVERRIDE_NAMES = ("compile", "eval", "exec", "globals", "exit", "open", "input",
 def call_signature(case, c, rc, sc):
     if c["fn"] in OVERRIDE_NAMES:
         return {"kind": "call", "cause": "student-function-named-like-override"}
+    if sc["result"] == ["exc", "KeyError"] and rc["result"][0] == "exc" and "KeyError" in rc.get("mro", []):
+        return {"kind": "outcome", "cause": "keyerror-subclass-replaced"}
     classes = sorted({arg_class(a) for a in list(c.get("args", [])) + list(c.get("kwargs", {}).values())})
     if "float-nonfinite" in classes and sc["result"][0] == "exc" and sc["result"][1] == "NameError":
         return {"kind": "call", "cause": "arg-float-nonfinite"}
